@@ -24,10 +24,19 @@ ASSUMPTIONS = ["CPython 3.12.1's ast.parse is the reference; only the accept/rai
 
 
 def units(tier: str) -> list[tuple]:
-    return _diff.units(tier, USE, VOCABS, SHIFT, asdl_k=2, sub_cap=12_000)
+    return _diff.units(tier, USE, VOCABS, SHIFT, asdl_k=2, sub_cap=12_000) + [("fstr", 0), ("fstr", 1)]
 
 
-cases = _diff.cases
+def cases(unit: tuple):
+    if unit[0] == "fstr":
+        # C10's f-string family: the texts CPython rejects must be rejected here too (blanks where a field does not allow
+        # them, fields nested too deeply in format specs, stray braces, bad conversions ...)
+        from . import c10
+
+        for s in (c10.light_cases() if unit[1] == 0 else c10.blank_insertions()):
+            yield {"src": s, "mode": "exec", "fstr": True}
+        return
+    yield from _diff.cases(unit)
 
 
 def run_unit(unit: tuple, acc: Any) -> None:
@@ -40,7 +49,9 @@ _MSG = re.compile(r"'[^']*'|\"[^\"]*\"|\d+")
 
 def check_case(case: Any, acc: Any) -> None:
     src, mode = (case["src"], case.get("mode", "exec")) if isinstance(case, dict) else case
-    if not run.python_lexicon(src) or "\x00" in src:
+    # the '!' of an f-string conversion is a Python lexeme there (the lexicon test is made on characters)
+    lex = src.replace("!", "") if isinstance(case, dict) and case.get("fstr") else src
+    if not run.python_lexicon(lex) or "\x00" in src:
         acc.count("outside:lexicon")
         return
     st, ref = run.cpy(src, mode)
